@@ -378,3 +378,110 @@ func (a *Act) appendOp(st *State, com *ssa.CallCommon, pos tokenPos) Term {
 	}
 	return res
 }
+
+// closureCreated: preconditions of a contracted closure that mention only captured variables are
+// obligations at the point of creation; the captured variables must not be reassigned afterwards.
+func (a *Act) closureCreated(st *State, mc *ssa.MakeClosure, fn *ssa.Function, env []Val) {
+	fc := a.u.E.Contracts[fn]
+	if fc == nil || a.spec {
+		return
+	}
+	for _, v := range env {
+		if v.Loc != nil {
+			return
+		}
+	}
+	var args []Val
+	penv := a.fnEnv(fn, args, env, st, st, nil)
+	params := map[string]bool{}
+	for _, p := range fn.Params {
+		params[p.Name()] = true
+	}
+	checked := false
+	for _, cl := range fc.Clauses {
+		if cl.Kind != "requires" || cl.Loop != 0 {
+			continue
+		}
+		if mentions(cl.Expr, params) {
+			a.u.warn("precondition of closure %s mentions its parameters: not checked at creation (dynamic call sites are unchecked): %s", fnName(fn), cl.Src)
+			continue
+		}
+		t := a.evalClause(penv, cl)
+		detail := fnName(fn)
+		if cl.Label != "" {
+			detail += "@" + cl.Label
+		}
+		a.u.Oblige("pre-closure", detail, a.pos(mc.Pos()), "captured-state precondition of "+fnName(fn)+" at creation: "+cl.Src, st.guard, t, cl.Tags)
+		checked = true
+	}
+	if !checked {
+		return
+	}
+	// captured variables must not be stored to after the creation
+	for _, b := range mc.Bindings {
+		al, ok := b.(*ssa.Alloc)
+		if !ok {
+			continue
+		}
+		for _, ref := range *al.Referrers() {
+			sto, ok := ref.(*ssa.Store)
+			if !ok || sto.Addr != al {
+				continue
+			}
+			okPos := false
+			if sto.Block() == mc.Block() {
+				for _, ins := range mc.Block().Instrs {
+					if ins == sto {
+						okPos = true
+						break
+					}
+					if ins == ssa.Instruction(mc) {
+						break
+					}
+				}
+			} else if sto.Block().Dominates(mc.Block()) {
+				okPos = true
+			}
+			if !okPos {
+				a.u.Oblige("pre-closure", fnName(fn)+":stable", a.pos(sto.Pos()), "captured variable "+al.Comment+" is not reassigned after the closure is created", st.guard, "false", nil)
+			}
+		}
+	}
+}
+
+func mentions(e Expr, names map[string]bool) bool {
+	switch v := e.(type) {
+	case *EIdent:
+		return names[v.Name]
+	case *ECall:
+		for _, x := range v.Args {
+			if mentions(x, names) {
+				return true
+			}
+		}
+	case *EUnary:
+		return mentions(v.X, names)
+	case *EBinary:
+		return mentions(v.X, names) || mentions(v.Y, names)
+	case *ESel:
+		return mentions(v.X, names)
+	case *EIndex:
+		return mentions(v.X, names) || mentions(v.I, names)
+	case *ESlice:
+		return mentions(v.X, names) || (v.Lo != nil && mentions(v.Lo, names)) || (v.Hi != nil && mentions(v.Hi, names))
+	case *EQuant:
+		inner := map[string]bool{}
+		for k, b := range names {
+			inner[k] = b
+		}
+		for _, p := range v.Vars {
+			delete(inner, p.Name)
+		}
+		return mentions(v.Body, inner)
+	case *EOld:
+		return mentions(v.X, names)
+	case *ECond:
+		return mentions(v.C, names) || mentions(v.A, names) || mentions(v.B, names)
+	}
+	return false
+}
